@@ -128,19 +128,25 @@ def signedMembers (H : Bytes → Bytes) (row : VGen.VersionRow) (ver : Bytes) (p
         | none => .error (unmodelled "existing signatures")
         | some ns => .ok (setFirst b!"signatures" ns withHash)
 
-/-- the end of `Build`: `EnforcedCanonicalJSON`, `NewEventFromTrustedJSON(…, false)`, `CheckFields` -/
+/-- the end of `Build`: `EnforcedCanonicalJSON`, `NewEventFromTrustedJSON(…, false)`, `CheckFields`.
+    As in the Go code, the trusted constructor is handed the canonical *text* and reads it back
+    (`parse`): the event holds the value that text denotes — members sorted, `-0` written `0` — not
+    the marshalling order of the builder struct. -/
 def finishBuild (H : Bytes → Bytes) (row : VGen.VersionRow) (ver : Bytes) (signed : Obj) : Except Err PDU :=
   match enforcedOkVal row (.obj signed) with
   | none => .error (unmodelled "canonical check function")
   | some false => .error .badJSON
   | some true =>
     if !(JVal.obj signed).noDupKeys then .error (unmodelled "duplicate keys inside content / unsigned") else
-    match trustedCore H row ver false (encodeCanon (.obj signed)) (.obj signed) with
-    | .error x => .error x
-    | .ok e =>
-      match checkFields e with
+    match parse (encodeCanon (.obj signed)) with
+    | none => .error (.other "invalid-json")
+    | some p =>
+      match trustedCore H row ver false (encodeCanon (.obj signed)) p.toJVal with
       | .error x => .error x
-      | .ok () => .ok e
+      | .ok e =>
+        match checkFields e with
+        | .error x => .error x
+        | .ok () => .ok e
 
 /-- `EventBuilder.Build(now, origin, keyID, privateKey)` -/
 def build (H : Bytes → Bytes) (ver : Bytes) (pe : Proto) (now : Nat) (origin kid rand16 sig : Bytes) : Except Err PDU :=
